@@ -139,7 +139,7 @@ class BaseDistanceBasedBins(BaseDistanceBased):
         super().__init__(
             statistical_type=UnivariateData(),
             statistical_method=statistical_method,
-            statistical_kwargs={**statistical_kwargs, "num_bins": num_bins},
+            statistical_kwargs={"num_bins": num_bins, **statistical_kwargs},
             callbacks=callbacks,
         )
         self.num_bins = num_bins
